@@ -27,7 +27,7 @@ TIMEOUT = {'quick': 900, 'thorough': 3300}
 WORKER_BUDGET = {'quick': 600, 'thorough': 2700}
 MIN_HELD = {'quick': 400, 'thorough': 87651}
 KINDS = ['dwt1f', 'dwt1i', 'dwt2f', 'dwt2i', 'swt', 'dtf', 'dti']
-NS, CS = [1, 2, 3, 5], [1, 2, 3, 4, 7]
+NS, CS = [1, 2, 3, 4, 5, 6], [1, 2, 3, 4, 6, 7]
 
 
 def cells(tier, seed):
@@ -38,6 +38,17 @@ def cells(tier, seed):
         for _ in range(n):
             c = adapters.random_config(kind, rnd)
             c['N'], c['C'] = rnd.choice(NS), rnd.choice(CS)
+            out.append(c)
+        # "whatever the batch size and channel count": a few wide batches / many-channel inputs per kind
+        # (sizes at which grouped convolutions are commonly replaced by other kernels)
+        for _ in range(3 if tier == 'quick' else 120):
+            c = adapters.random_config(kind, rnd)
+            if rnd.random() < 0.75:
+                c['N'], c['C'] = rnd.choice([1, 2]), rnd.choice([16, 17, 32, 33, 40, 64, 65])
+            else:
+                c['N'], c['C'] = rnd.choice([16, 33, 64]), rnd.choice([1, 2])
+            if kind in ('dtf', 'dti') and rnd.random() < 0.7:
+                c['J'] = max(c.get('J', 1), 2)
             out.append(c)
     rnd.shuffle(out)
     return out
